@@ -43,7 +43,26 @@ def scenarios(tier, seed):
                                             PROFILE_SETS[ps], seed * 977 + i, tech=dict(tREFI=1300 + 17 * (i % 40)),
                                             ctrl=dict(cmd_buffer_depth=depth, cmd_buffer_buffered=buffered, with_auto_precharge=ap)))
                     i += 1
-    return out
+    return out + xbar_lockstep_scenarios(tier, seed)
+
+
+def xbar_lockstep_scenarios(tier, seed):
+    variants = [dict(M=2, B=2, depth=2), dict(M=3, B=4, depth=2, poffer=0.8, pserve=0.4), dict(M=4, B=2, depth=3, poffer=0.9, pserve=0.7, wl=2),
+                dict(M=8, B=8, depth=8, poffer=0.7, pserve=0.6, wl=1)]
+    return [dict(name="lockstep-crossbar-%d" % j, kind="lockstep-xbar", seed=seed * 29 + j, ncyc=3000 if tier == "quick" else 12000, params=v)
+            for j, v in enumerate(variants if tier == "quick" else variants * 3)]
+
+
+def _lockstep_xbar(sc, workdir):
+    from .. import xbarlock
+    r = xbarlock.run_xbar(sc, workdir)
+    notes = []
+    if r["mismatches"]:
+        notes.append("MODEL-DRIFT module=Crossbar cycle=%s signal=%s (D_Crossbar no longer equals the code; exhaustive result not bound)"
+                     % (r["mismatches"][0][0], r["mismatches"][0][1:]))
+    return dict(bad=[], evaluations=r["cycles"], nontrivial=[["lockstep", sc["name"]]] if r["accepted"] > 100 else [], traces=1,
+                sample=dict(consts=r["consts"], accepted=r["accepted"], first=r["sample"][:1]), notes=notes,
+                lockstep=r["cycles"], stats=dict(lockstep_cycles=r["cycles"], lockstep_commands=r["accepted"]))
 
 
 def models(tier, seed):
@@ -53,6 +72,8 @@ def models(tier, seed):
 
 
 def execute(sc, workdir):
+    if sc.get("kind") == "lockstep-xbar":
+        return _lockstep_xbar(sc, workdir)
     r = execute_core(sc, workdir, ID, ("mem",))
     k = r["kinds"]
     nt = [[sc["memtype"], sc["rate"], len(sc["ports"]), kind] for kind in ("CMD", "WDATA", "RDATA") if k.get(kind)]
